@@ -297,7 +297,7 @@ Definition seval (args : list obj) (e : env) (h : heap) (r : rhs) (sc : list nat
                    | None => None
                    | Some cl => match nth_error (c_refs cl) k with
                                 | Some o' => Some (o', h, sc')
-                                | None => None end
+                                | None => Some (o, h, sc') end   (* no such reference: the view *)
                    end
           end
       end
@@ -363,8 +363,9 @@ Definition refute_check (fuel : nat) (p : stmt) (h : heap) (args : list obj) (sc
   | None => false
   end.
 
-(* canonical start heap for n arguments: argument i is object i and refers to
-   a private child object n+i (so that one level of container lookup exists) *)
+(* canonical start heap for n arguments: argument i is object i, and
+   i -> n+i -> 2n+i -> 3n+i is a private chain of references (three levels of
+   container lookup: self -> cache -> sample dict -> tensor) *)
 Definition start_heap (n : nat) : heap :=
-  (map (fun i => mkcell 0%N 0 [n + i]) (seq 0 n) ++ map (fun _ => mkcell 0%N 0 []) (seq 0 n))%list.
+  (map (fun k => mkcell 0%N 0 [n + k]) (seq 0 (3 * n)) ++ map (fun _ => mkcell 0%N 0 []) (seq 0 n))%list.
 Definition start_args (n : nat) : list obj := seq 0 n.
